@@ -6,6 +6,8 @@
 //! engine is then judged by small independent reference searches over that edge list:
 //!   find_path, find_weighted_path, find_all_paths, find_all_weighted_paths, astar_path (default zero
 //!   heuristic), traverse, find_variable_paths, neighbors, strongly_connected_components (+condensation),
+//!   match_pattern / match_simple / count_pattern_matches / pattern_exists (fixed and variable-length edge
+//!   patterns, 2- and 3-node paths, directions, type / property / label filters, sequential and parallel scan),
 //!   connected_components, minimum_spanning_tree, kcore_decomposition, count_triangles(undirected),
 //!   local_clustering_coefficient, biconnected_components / articulation_points / bridges.
 //! Each algorithm is compared in the view its textbook definition uses: paths, traversals and SCC respect
@@ -17,8 +19,8 @@
 
 use common::*;
 use graph_engine::{
-    AStarConfig, AllPathsConfig, BiconnectedConfig, Direction, GraphEngine, GraphError, KCoreConfig, MstConfig, PropertyValue, SccConfig,
-    TraversalFilter, TriangleConfig, VariableLengthConfig,
+    AStarConfig, AllPathsConfig, BiconnectedConfig, CompareOp, Direction, EdgePattern, GraphEngine, GraphEngineConfig, GraphError, KCoreConfig, MstConfig,
+    NodePattern, PathPattern, Pattern, PatternMatch, PropertyValue, SccConfig, TraversalFilter, TriangleConfig, VariableLengthConfig,
 };
 use serde_json::{json, Value};
 use std::collections::{BTreeMap, BTreeSet, HashMap, HashSet, VecDeque};
@@ -509,12 +511,16 @@ struct Built {
 }
 
 fn build(spec: &Spec) -> Result<Built, String> {
-    let g = GraphEngine::new();
+    build_in(spec, GraphEngine::new())
+}
+
+fn build_in(spec: &Spec, g: GraphEngine) -> Result<Built, String> {
     let mut ids = Vec::new();
     for i in 0..spec.n {
         let mut p = HashMap::new();
         p.insert("c".to_string(), PropertyValue::Int(spec.color[i]));
-        ids.push(g.create_node("N", p).map_err(|e| format!("create_node: {}", e))?);
+        // every node is labelled N plus L<colour> (label filters of node patterns)
+        ids.push(g.create_node_with_labels(vec!["N".to_string(), format!("L{}", spec.color[i])], p).map_err(|e| format!("create_node: {}", e))?);
     }
     let mut expect: BTreeMap<u64, &ES> = BTreeMap::new();
     for e in &spec.edges {
@@ -1345,6 +1351,19 @@ fn graph_case(case_seed: u64, r: &mut Report, exe: &std::path::Path) {
 
     cx.r.count("time_us_algos", lap_t.elapsed().as_micros() as u64);
     lap_t = Instant::now();
+    // ---------------- pattern matching (fixed and variable-length edge patterns)
+    let dense = spec.edges.len() > 2 * n;
+    let triangle = has_triangle(rg);
+    pattern_queries(&mut cx, g, rg, &mut rng, 6, dense, false);
+    if n >= 3 && rng.chance(1, 4) {
+        // same graph in an engine that scans start candidates in parallel (threshold 2 instead of 100)
+        match build_in(&spec, GraphEngine::with_config(GraphEngineConfig::new().pattern_parallel_threshold(2))) {
+            Ok(bp) if bp.ids == *ids && bp.rg.edges.iter().map(|e| e.id).eq(rg.edges.iter().map(|e| e.id)) => pattern_queries(&mut cx, &bp.g, rg, &mut rng, 3, dense, true),
+            _ => cx.r.inconclusive("second engine (parallel pattern scan) could not be built identically"),
+        }
+    }
+    cx.r.count("time_us_patterns", lap_t.elapsed().as_micros() as u64);
+    lap_t = Instant::now();
     // ---------------- find_all_weighted_paths with zero-weight steps: child process
     if zero_risk && rng.chance(1, 6) && reachable_pairs > 0 {
         let (a, b) = pairs[rng.below(pairs.len())];
@@ -1367,10 +1386,353 @@ fn graph_case(case_seed: u64, r: &mut Report, exe: &std::path::Path) {
     r.count("graphs_with_parallel_edges", (parallel > 0) as u64);
     r.count("graphs_with_undirected_edges", spec.edges.iter().any(|e| !e.directed) as u64);
     r.count("graphs_with_zero_weights", zero_risk as u64);
+    r.count("graphs_with_triangles", triangle as u64);
     r.eval(spec_hash(&spec), n >= 3 && spec.edges.len() >= 2 && far_pairs > 0);
     if sigs_empty && r.want_sample() && n >= 4 && n <= 7 && far_pairs > 0 {
         r.sample(json!({"part": "graph", "case_seed": case_seed, "graph": spec_json(&spec), "pairs": pairs.len(), "reachable_pairs": reachable_pairs}));
     }
+}
+
+
+// ------------------------------------------------------------------------------------------------
+// pattern matching (match_pattern / match_simple): reference semantics and judge
+// ------------------------------------------------------------------------------------------------
+//
+// Documented / coded semantics mirrored by the reference:
+//  * a path pattern is matched segment by segment; a fixed edge pattern takes one step along any edge
+//    the direction permits (Outgoing: the node's outgoing list = directed edges leaving it and its
+//    undirected edges; Incoming: the mirror; Both: every incident edge), a self-loop included;
+//  * a variable-length edge pattern *min..max binds a Path; the code says "Skip visited nodes to prevent
+//    cycles": the segment's own node sequence is simple (its start node included, so self-loops and
+//    returns to the start are excluded); min = 0 additionally yields the empty path at the start node;
+//    different segments of one pattern do not share a visited set;
+//  * node patterns (label, property conditions) constrain the pattern's named positions only, never the
+//    interior of a variable-length segment; edge type / property conditions constrain every step.
+// Parallel edges give different paths (a Path is a node *and* edge sequence, as in find_variable_paths).
+
+#[derive(Clone, Debug)]
+struct NodeSpec {
+    label: Option<i64>,
+    cond: Option<(bool, i64)>, // (true = c == x, false = c != x)
+}
+impl NodeSpec {
+    fn ok(&self, colour: Option<i64>) -> bool {
+        let Some(c) = colour else { return false };
+        self.label.map_or(true, |l| l == c) && self.cond.map_or(true, |(eq, x)| (c == x) == eq)
+    }
+    fn pattern(&self, var: &str) -> NodePattern {
+        let mut np = NodePattern::new().variable(var);
+        if let Some(l) = self.label {
+            np = np.label(&format!("L{}", l));
+        }
+        if let Some((eq, x)) = self.cond {
+            np = np.where_cond("c", if eq { CompareOp::Eq } else { CompareOp::Ne }, PropertyValue::Int(x));
+        }
+        np
+    }
+    fn show(&self) -> String {
+        format!("(label {:?}, c {:?})", self.label.map(|l| format!("L{}", l)), self.cond.map(|(eq, x)| format!("{}{}", if eq { "==" } else { "!=" }, x)))
+    }
+}
+
+#[derive(Clone, Debug)]
+struct SegSpec {
+    dir: Direction,
+    ty: Option<&'static str>,
+    k: Option<i64>,
+    var: Option<(usize, usize)>,
+    end: NodeSpec,
+}
+impl SegSpec {
+    fn edge_ok(&self, e: &RE) -> bool {
+        self.ty.map_or(true, |t| e.ty == t) && self.k.map_or(true, |k| e.k == k)
+    }
+    fn pattern(&self, var: &str) -> EdgePattern {
+        let mut ep = EdgePattern::new().variable(var).direction(self.dir);
+        if let Some(t) = self.ty {
+            ep = ep.edge_type(t);
+        }
+        if let Some(k) = self.k {
+            ep = ep.where_eq("k", PropertyValue::Int(k));
+        }
+        if let Some((lo, hi)) = self.var {
+            ep = ep.variable_length(lo, hi);
+        }
+        ep
+    }
+    fn show(&self) -> String {
+        format!("-[{} type {:?} k {:?} {}]- {}", dname(self.dir), self.ty, self.k, self.var.map_or("1 hop".to_string(), |(a, b)| format!("*{}..{}", a, b)), self.end.show())
+    }
+}
+
+/// one match = start node + per segment (node sequence, edge sequence)
+type MKey = Vec<PathKey>;
+
+fn gen_node_spec(rng: &mut Rng, free: u32) -> NodeSpec {
+    match rng.weighted(&[free, 20, 20, 15]) {
+        0 => NodeSpec { label: None, cond: None },
+        1 => NodeSpec { label: Some(rng.below(3) as i64), cond: None },
+        2 => NodeSpec { label: None, cond: Some((true, rng.below(3) as i64)) },
+        _ => NodeSpec { label: if rng.chance(1, 3) { Some(rng.below(3) as i64) } else { None }, cond: Some((false, rng.below(3) as i64)) },
+    }
+}
+
+fn gen_seg(rng: &mut Rng, dense: bool, variable: bool) -> SegSpec {
+    let dir = [Direction::Outgoing, Direction::Outgoing, Direction::Incoming, Direction::Both][rng.below(4)];
+    let ty = if rng.chance(2, 5) { Some(TYPES[rng.below(3)]) } else { None };
+    let k = if rng.chance(1, 5) { Some(rng.below(3) as i64) } else { None };
+    let var = if variable {
+        let lo = rng.below(3);
+        let span = if dense { rng.below(3) } else { rng.below(5) };
+        let (lo, hi) = if rng.chance(1, 25) { (lo + 2, lo) } else { (lo, (lo + span).max(1)) };
+        Some((lo, if dense { hi.min(3) } else { hi.min(5) }))
+    } else {
+        None
+    };
+    SegSpec { dir, ty, k, var, end: gen_node_spec(rng, 50) }
+}
+
+/// every way to extend from `x` through segment `seg`: (node sequence, edge sequence), by exhaustive search
+fn ref_segment(rg: &RG, arcs: &[(Arc, f64)], seg: &SegSpec, x: u64, cap: usize, out: &mut Vec<PathKey>) -> bool {
+    match seg.var {
+        None => {
+            for (a, _) in arcs {
+                if a.u == x && seg.end.ok(rg.color.get(&a.v).copied()) {
+                    out.push((vec![x, a.v], vec![a.e]));
+                }
+            }
+            true
+        }
+        Some((lo, hi)) => {
+            if lo == 0 && seg.end.ok(rg.color.get(&x).copied()) {
+                out.push((vec![x], vec![]));
+            }
+            fn rec(rg: &RG, arcs: &[(Arc, f64)], seg: &SegSpec, lo: usize, hi: usize, cap: usize, nodes: &mut Vec<u64>, edges: &mut Vec<u64>, out: &mut Vec<PathKey>) -> bool {
+                if edges.len() >= hi {
+                    return true;
+                }
+                let cur = *nodes.last().unwrap();
+                for (a, _) in arcs {
+                    if a.u != cur || nodes.contains(&a.v) {
+                        continue;
+                    }
+                    nodes.push(a.v);
+                    edges.push(a.e);
+                    if edges.len() >= lo && seg.end.ok(rg.color.get(&a.v).copied()) {
+                        out.push((nodes.clone(), edges.clone()));
+                    }
+                    let ok = out.len() <= cap && rec(rg, arcs, seg, lo, hi, cap, nodes, edges, out);
+                    nodes.pop();
+                    edges.pop();
+                    if !ok {
+                        return false;
+                    }
+                }
+                true
+            }
+            rec(rg, arcs, seg, lo, hi, cap, &mut vec![x], &mut Vec::new(), out)
+        }
+    }
+}
+
+fn ref_matches(rg: &RG, start: &NodeSpec, segs: &[SegSpec], cap: usize) -> Option<BTreeSet<MKey>> {
+    let arcs: Vec<Vec<(Arc, f64)>> = segs.iter().map(|s| rg.arcs(s.dir, &|e| s.edge_ok(e))).collect();
+    let mut out: BTreeSet<MKey> = BTreeSet::new();
+    fn go(rg: &RG, arcs: &[Vec<(Arc, f64)>], segs: &[SegSpec], i: usize, x: u64, cur: &mut MKey, out: &mut BTreeSet<MKey>, cap: usize) -> bool {
+        if i == segs.len() {
+            out.insert(cur.clone());
+            return out.len() <= cap;
+        }
+        let mut ext = Vec::new();
+        if !ref_segment(rg, &arcs[i], &segs[i], x, cap, &mut ext) {
+            return false;
+        }
+        for pk in ext {
+            let next = *pk.0.last().unwrap();
+            cur.push(pk);
+            let ok = go(rg, arcs, segs, i + 1, next, cur, out, cap);
+            cur.pop();
+            if !ok {
+                return false;
+            }
+        }
+        true
+    }
+    for &s in &rg.nodes {
+        if start.ok(rg.color.get(&s).copied()) && !go(rg, &arcs, segs, 0, s, &mut Vec::new(), &mut out, cap) {
+            return None;
+        }
+    }
+    Some(out)
+}
+
+const NODE_VARS: [&str; 3] = ["a", "b", "c"];
+const EDGE_VARS: [&str; 2] = ["p1", "p2"];
+
+/// what one engine match binds, segment by segment; Err = the bindings themselves are inconsistent
+fn match_key(m: &PatternMatch, segs: &[SegSpec]) -> Result<MKey, String> {
+    let mut key = Vec::new();
+    let mut cur = m.get_node(NODE_VARS[0]).ok_or("start node variable not bound")?.id;
+    for (i, seg) in segs.iter().enumerate() {
+        let end = m.get_node(NODE_VARS[i + 1]).ok_or(format!("node variable {} not bound", NODE_VARS[i + 1]))?.id;
+        let pk: PathKey = if seg.var.is_some() {
+            let p = m.get_path(EDGE_VARS[i]).ok_or(format!("variable-length edge variable {} is not bound to a path", EDGE_VARS[i]))?;
+            (p.nodes.clone(), p.edges.clone())
+        } else {
+            let e = m.get_edge(EDGE_VARS[i]).ok_or(format!("edge variable {} is not bound to an edge", EDGE_VARS[i]))?;
+            (vec![cur, end], vec![e.id])
+        };
+        if pk.0.first() != Some(&cur) || pk.0.last() != Some(&end) {
+            return Err(format!("segment {} runs {:?}..{:?} but the node variables around it are {} and {}", i + 1, pk.0.first(), pk.0.last(), cur, end));
+        }
+        key.push(pk);
+        cur = end;
+    }
+    Ok(key)
+}
+
+fn pattern_queries(cx: &mut Ctx, g: &GraphEngine, rg: &RG, rng: &mut Rng, queries: usize, dense: bool, parallel_scan: bool) {
+    for _ in 0..queries {
+        let start = gen_node_spec(rng, 40);
+        let three = rng.chance(1, 4);
+        let segs: Vec<SegSpec> = if three {
+            let first_var = rng.bool();
+            vec![gen_seg(rng, true, first_var), gen_seg(rng, true, !first_var || rng.chance(1, 3))]
+        } else {
+            vec![gen_seg(rng, dense, rng.chance(4, 5))]
+        };
+        let Some(want) = ref_matches(rg, &start, &segs, 20_000) else {
+            cx.r.count("match_reference_too_many", 1);
+            continue;
+        };
+        let mut path = PathPattern::new(start.pattern("a"), segs[0].pattern("p1"), segs[0].end.pattern("b"));
+        if three {
+            path = path.extend(segs[1].pattern("p2"), segs[1].end.pattern("c"));
+        }
+        let what = format!("match_pattern (a {}) {}{}{}", start.show(), segs[0].show(), if three { format!(" {}", segs[1].show()) } else { String::new() }, if parallel_scan { " [parallel candidate scan]" } else { "" });
+        let via_simple = !three && want.len() < 900 && rng.bool();
+        let res = if via_simple {
+            g.match_simple(start.pattern("a"), segs[0].pattern("p1"), segs[0].end.pattern("b"))
+        } else {
+            g.match_pattern(&Pattern::new(path.clone()).limit(1_000_000))
+        };
+        cx.r.count("q_match_pattern", 1);
+        cx.r.count(if via_simple { "q_match_simple" } else { "q_match_pattern_explicit_limit" }, 1);
+        if parallel_scan {
+            cx.r.count("q_match_pattern_parallel_scan", 1);
+        }
+        if segs.iter().any(|s| s.var.map_or(false, |(_, hi)| hi >= 2)) {
+            cx.r.count("q_match_var_maxhops_ge2", 1);
+        }
+        if three {
+            cx.r.count("q_match_three_node_patterns", 1);
+        }
+        let res = match res {
+            Ok(r) => r,
+            Err(e) => {
+                cx.violate("match_pattern:unexpected-error".into(), format!("{} = Err({})", what, e));
+                continue;
+            }
+        };
+        if res.stats.truncated {
+            cx.r.count("match_truncated", 1);
+            continue;
+        }
+        // ---- soundness of every returned match
+        let mut got: BTreeSet<MKey> = BTreeSet::new();
+        let mut sound = true;
+        for m in &res.matches {
+            cx.r.count("match_paths_checked", 1);
+            let key = match match_key(m, &segs) {
+                Ok(k) => k,
+                Err(e) => {
+                    cx.violate("match_pattern:inconsistent-bindings".into(), format!("{}: {}", what, e));
+                    sound = false;
+                    continue;
+                }
+            };
+            let a = key[0].0[0];
+            if !start.ok(rg.color.get(&a).copied()) {
+                cx.violate("match_pattern:node-does-not-match-node-pattern".into(), format!("{}: start node {} (c = {:?}) does not satisfy its pattern", what, a, rg.color.get(&a)));
+                sound = false;
+            }
+            for (i, (seg, pk)) in segs.iter().zip(&key).enumerate() {
+                let (first, last) = (pk.0[0], *pk.0.last().unwrap());
+                let problem: Option<(String, String)> = match check_walk(rg, &pk.0, &pk.1, first, last, seg.dir, &|e| seg.edge_ok(e), &|_| true) {
+                    Err(e) => Some((walk_sig("match_pattern", &e), format!("{:?}", e))),
+                    Ok(_) => {
+                        let hops = pk.1.len();
+                        let (lo, hi) = seg.var.unwrap_or((1, 1));
+                        let mut uniq = pk.0.clone();
+                        uniq.sort_unstable();
+                        uniq.dedup();
+                        if hops < lo || hops > hi {
+                            Some(("match_pattern:path-outside-hop-bounds".into(), format!("{} hops, bounds {}..={}", hops, lo, hi)))
+                        } else if seg.var.is_some() && uniq.len() != pk.0.len() {
+                            Some(("match_pattern:variable-length-path-repeats-node".into(), "the code skips visited nodes to prevent cycles".into()))
+                        } else if !seg.end.ok(rg.color.get(&last).copied()) {
+                            Some(("match_pattern:node-does-not-match-node-pattern".into(), format!("end node {} has c = {:?}", last, rg.color.get(&last))))
+                        } else {
+                            None
+                        }
+                    }
+                };
+                if let Some((sig, why)) = problem {
+                    cx.violate(sig, format!("{}: returned match, segment {} = nodes {:?} edges {:?}: {}", what, i + 1, pk.0, pk.1, why));
+                    sound = false;
+                }
+            }
+            got.insert(key);
+        }
+        if !sound {
+            continue;
+        }
+        // ---- exactly the qualifying paths
+        if got != want {
+            let extra: Vec<&MKey> = got.difference(&want).take(3).collect();
+            let missing: Vec<&MKey> = want.difference(&got).collect();
+            let got_nodes: BTreeSet<Vec<&Vec<u64>>> = got.iter().map(|k| k.iter().map(|p| &p.0).collect()).collect();
+            let node_seq_missing: Vec<&&MKey> = missing.iter().filter(|k| !got_nodes.contains(&k.iter().map(|p| &p.0).collect::<Vec<_>>())).collect();
+            let sig = if !extra.is_empty() {
+                "match_pattern:unexpected-match"
+            } else if !node_seq_missing.is_empty() {
+                "match_pattern:qualifying-path-missing"
+            } else {
+                "match_pattern:parallel-edge-variant-of-path-missing"
+            };
+            cx.violate(
+                sig.into(),
+                format!(
+                    "{} returns {} distinct matches, exhaustive enumeration over the edge list finds {}; missing (per segment: nodes, edges) {:?}{}; extra {:?}",
+                    what,
+                    got.len(),
+                    want.len(),
+                    if node_seq_missing.is_empty() { missing.iter().take(3).collect::<Vec<_>>() } else { node_seq_missing.iter().take(3).map(|k| **k).collect::<Vec<_>>().iter().collect::<Vec<_>>() },
+                    if node_seq_missing.is_empty() { " — each missing path differs from a returned one only in which parallel edge it uses" } else { "" },
+                    extra
+                ),
+            );
+            continue;
+        }
+        // ---- the counting / existence entry points answer the same question
+        if want.len() <= 2_000 && rng.chance(1, 3) {
+            let pat = Pattern::new(path);
+            cx.r.count("q_count_pattern_matches", 1);
+            match (g.count_pattern_matches(&pat), g.pattern_exists(&pat)) {
+                (Ok(c), Ok(ex)) => {
+                    if c as usize != res.matches.len() || ex == want.is_empty() {
+                        cx.violate("match_pattern:count-or-exists-disagrees".into(), format!("{}: count_pattern_matches = {}, pattern_exists = {}, match_pattern returned {} matches ({} distinct)", what, c, ex, res.matches.len(), want.len()));
+                    }
+                }
+                (c, ex) => cx.violate("match_pattern:unexpected-error".into(), format!("{}: count {:?} exists {:?}", what, c.map_err(|e| e.to_string()), ex.map_err(|e| e.to_string()))),
+            }
+        }
+    }
+}
+
+fn has_triangle(rg: &RG) -> bool {
+    let adj = simple_adj(rg, &|_| true);
+    adj.iter().any(|(&a, na)| na.iter().any(|&b| b > a && adj[&b].iter().any(|&c| c > b && na.contains(&c))))
 }
 
 // ------------------------------------------------------------------------------------------------
@@ -1487,6 +1849,20 @@ fn probe() {
     println!("cycle 1-2-3-4-5-1 with chord 3-5: biconnected_components = {:?}", b.g.biconnected_components(&BiconnectedConfig::new()).map(|r| (r.component_count, r.components)));
 }
 
+fn probe_patterns() {
+    let b = build(&Spec { n: 2, color: vec![0; 2], edges: vec![es(2, 1, true, W::Missing), es(2, 1, true, W::Missing)] }).expect("build");
+    let show = |dir: Direction, from_first: bool| {
+        let r = b.g.match_simple(NodePattern::new().variable("a").where_eq("c", PropertyValue::Int(0)), EdgePattern::new().variable("r").direction(dir), NodePattern::new().variable("b")).expect("match");
+        let mut v: Vec<(u64, u64, u64)> = r.matches.iter().filter_map(|m| Some((m.get_node("a")?.id, m.get_edge("r")?.id, m.get_node("b")?.id))).collect();
+        v.sort_unstable();
+        let _ = from_first;
+        v
+    };
+    println!("edges e1: 2->1, e2: 2->1; (a)-[r]->(b) = {:?}", show(Direction::Outgoing, true));
+    println!("                          (a)<-[r]-(b) = {:?}", show(Direction::Incoming, true));
+    println!("                          (a)-[r]-(b)  = {:?}", show(Direction::Both, true));
+}
+
 fn probe_fawp() {
     let b = build(&Spec { n: 4, color: vec![0; 4], edges: vec![es(1, 2, true, W::Int(1)), es(1, 3, true, W::Int(1)), es(2, 3, false, W::Int(0)), es(2, 4, true, W::Int(1)), es(3, 4, true, W::Int(1))] }).expect("build");
     println!("edges 1->2 (1), 1->3 (1), 2--3 (0), 2->4 (1), 3->4 (1): find_weighted_path(1,4) = {:?}", b.g.find_weighted_path(1, 4, "w"));
@@ -1508,6 +1884,7 @@ fn main() {
     match args.rest.first().map(|s| s.as_str()) {
         Some("probe") => return probe(),
         Some("probe-fawp") => return probe_fawp(),
+        Some("probe-patterns") => return probe_patterns(),
         _ => {}
     }
     let exe = std::env::current_exe().unwrap_or_else(|_| std::path::PathBuf::from("c18"));
@@ -1529,7 +1906,7 @@ fn main() {
 
     let meta = Meta {
         property: "C18",
-        rule: "one case = one random multigraph (2-40 nodes; directed / undirected / mixed; self-loops, parallel and anti-parallel edges; weights missing / equal / zero-heavy / small ints / floats / 1e9-1e12; 1-3 edge types; optional disconnected clusters) built in a fresh engine and read back; all ordered pairs (<=8 nodes) or 28 sampled pairs get find_path, find_weighted_path, find_all_paths, find_all_weighted_paths and astar_path judged against BFS / Bellman-Ford / exhaustive enumeration over the read-back edge list; plus filtered find_path, traverse, neighbors, find_variable_paths (hop bounds, directions, type sets, filters, cycles) against exhaustive enumeration; SCC+condensation, weak components, k-core, triangles, clustering, articulation points, bridges, blocks, MST against brute-force references. Distinct by the hash of the generated graph; non-trivial if the graph has >=3 nodes, >=2 edges and a queried pair at reference distance >=2.",
+        rule: "one case = one random multigraph (2-40 nodes; directed / undirected / mixed; self-loops, parallel and anti-parallel edges; weights missing / equal / zero-heavy / small ints / floats / 1e9-1e12; 1-3 edge types; optional disconnected clusters) built in a fresh engine and read back; all ordered pairs (<=8 nodes) or 28 sampled pairs get find_path, find_weighted_path, find_all_paths, find_all_weighted_paths and astar_path judged against BFS / Bellman-Ford / exhaustive enumeration over the read-back edge list; plus filtered find_path, traverse, neighbors, find_variable_paths (hop bounds, directions, type sets, filters, cycles) against exhaustive enumeration; 6 (+3 on a parallel-scan engine for a quarter of the graphs) random path patterns through match_pattern / match_simple (fixed and *min..max edge patterns, 2- and 3-node paths, three directions, edge type / property and node label / property filters) compared as sets of bound (node sequence, edge sequence) tuples with an exhaustive enumeration, plus count_pattern_matches / pattern_exists; SCC+condensation, weak components, k-core, triangles, clustering, articulation points, bridges, blocks, MST against brute-force references. Distinct by the hash of the generated graph; non-trivial if the graph has >=3 nodes, >=2 edges and a queried pair at reference distance >=2.",
         assumptions: vec![
             "paths, traversals and SCC respect edge direction (an undirected edge is usable both ways); k-core, triangles, clustering, articulation points, bridges, blocks and MST are judged on the underlying simple undirected graph with the .undirected() switch where the config has one".into(),
             "node filters: only queries whose two endpoints satisfy the filter are judged, so that whether endpoints are exempt is not part of the verdict; traverse is only judged with edge-type / edge-property filters (whether a node filter prunes or only hides is not stated)".into(),
@@ -1537,8 +1914,10 @@ fn main() {
             "A* is run with its default zero heuristic only; weights are never negative or NaN; weighted totals are compared with relative tolerance 1e-9".into(),
             "find_all_weighted_paths: optimal total and validity/minimality of every listed path are judged, completeness of the list is not (float ties); on graphs with a zero-weight edge it runs in a child process (address-space limit 1.5 GB, 30 s): abnormal end = violation, timeout = inconclusive".into(),
             "a node is never judged to be (or not to be) its own neighbour".into(),
+            "pattern matching: a variable-length segment is node-simple including its start node (the code's stated rule: skip visited nodes to prevent cycles), segments of one pattern do not share that rule, node patterns apply to named positions only; matches are compared as sets of bound tuples with an explicit limit of 1e6 (match_simple only when fewer than 900 matches are expected; truncated results are skipped), so neither duplicates nor limit handling are judged; parallel edges give different paths, as in find_variable_paths".into(),
         ],
-        floors: vec![("graphs", 300), ("reachable_pairs", 2_000), ("pairs_at_distance_ge_2", 500), ("q_find_variable_paths", 300), ("q_scc", 300), ("graphs_with_parallel_edges", 50), ("graphs_with_undirected_edges", 50)],
+        floors: vec![("graphs", 300), ("reachable_pairs", 2_000), ("pairs_at_distance_ge_2", 500), ("q_find_variable_paths", 300), ("q_scc", 300), ("graphs_with_parallel_edges", 50), ("graphs_with_undirected_edges", 50),
+            ("q_match_pattern", 2_000), ("q_match_var_maxhops_ge2", 600), ("q_match_three_node_patterns", 200), ("q_match_pattern_parallel_scan", 100), ("match_paths_checked", 20_000), ("graphs_with_triangles", 100)],
         exhaustive: false,
     };
     write_result(&args, &meta, &total, started);
